@@ -378,7 +378,7 @@ def run(ctx):
         for i in range(n):
             sim.add(m=rng.uniform(0.1, 1), r=rng.uniform(0.05, 0.4), x=rng.uniform(-1, 1), y=rng.uniform(-1, 1), z=rng.uniform(-0.2, 0.2),
                     vx=rng.uniform(-1, 1), vy=rng.uniform(-1, 1), vz=rng.uniform(-0.1, 0.1))
-        sim.integrator = "leapfrog"; sim.dt = 1e-3; sim.collision = "direct"; sim.collision_resolve = "merge"
+        sim.integrator = "leapfrog"; sim.dt = 1e-3; sim.collision = "direct"; sim.collision_resolve = "merge"; sim.rand_seed = rng.randrange(1 << 30)   # the library would seed the resolution order from clock and pid
         M0 = sum(Fraction(p.m) for p in sim.particles); P0, _ = exact_PL(sim)
         X0 = [float(sum(Fraction(p.m) * Fraction(getattr(p, c)) for p in sim.particles)) for c in "xyz"]
         N0 = sim.N
@@ -410,7 +410,7 @@ def run(ctx):
         ps = sim.particles
         ai = math.hypot(ps[i].x - ps[0].x, ps[i].y - ps[0].y); aj = math.hypot(ps[i + 1].x - ps[0].x, ps[i + 1].y - ps[0].y)
         ps[i].r = 0.6 * (aj - ai); ps[i + 1].r = 0.6 * (aj - ai)      # the two neighbours overlap at conjunction
-        sim.collision = "direct"; sim.collision_resolve = "merge"
+        sim.collision = "direct"; sim.collision_resolve = "merge"; sim.rand_seed = rng.randrange(1 << 30)   # the library would seed the resolution order from clock and pid
         M0 = sum(Fraction(p.m) for p in sim.particles); P0, _ = exact_PL(sim)
         X0 = [float(sum(Fraction(p.m) * Fraction(getattr(p, c)) for p in sim.particles)) for c in "xyz"]
         Pscale = max(p.m * (abs(p.vx) + abs(p.vy) + abs(p.vz)) for p in sim.particles)
